@@ -17,3 +17,20 @@ add("C19", "H", "explicit-state BFS over API histories of the real Traph (bounde
 add("C04", "H", "explicit-state BFS over API histories of the real Traph (bounded depth, exhaustive), lock-step reference model",
     "Every history up to the stated depth over creations, deletions (full, partial, wrong id), prefix additions, removals and moves (no / right / wrong id) on nested and sibling prefixes, plus automatic creations; in every state the attached-prefix map and the resolution of 22 probe LRUs (stored, partially stored, absent, diverging left/right) are compared with longest-prefix match on a dict, and every refusal is checked on every transition.",
     "DESIGN.md 6/C04")
+
+REL = "explicit-state BFS over API histories of the real Traph (bounded depth, exhaustive); relational oracle between independent query paths of the same state"
+add("C05", "H", REL,
+    "Every history up to the stated depth over pages, link batches, prefix edits (nested, sibling, multi-prefix, a webentity nested in itself) and a rule; in every state, for every webentity and every order of its prefix list, the page listing is compared with {pages whose resolution returns it}, with crawled marks, and the union over webentities with the pages that resolve at all.",
+    "DESIGN.md 6/C05")
+add("C07", "H", REL,
+    "In every state of the same search the webentity network (both directions, self-links on/off, fast and memory-light variants, aliases) is compared with the page links of every page aggregated through top-down resolution of both ends; inbound must be the transpose of outbound; crawled/uncrawled tallies are compared with the pages resolving to each webentity.",
+    "DESIGN.md 6/C07")
+add("C08", "H", REL,
+    "In every state of the same search, for every webentity, prefix order and each of the 7 switch settings, the per-webentity page links are compared as a multiset with the page links of its pages classified through resolution; the all-false setting must be refused; cited/citing sets and degrees are compared with the resolution of the other link ends.",
+    "DESIGN.md 6/C08")
+add("C13", "H", REL,
+    "Every history up to the stated depth that inserts pages first (unmarked paths) and then attaches prefixes by every route (explicit creation, automatic creation, rule installation, prefix addition, move) in every order over C1 < A < Ax < Axy, Aw, S; in every state parents and children of every webentity are compared with the attached-prefix map.",
+    "DESIGN.md 6/C13")
+add("C20", "H", REL,
+    "Every history up to the stated depth over link batches giving indegrees 0..3 with ties, self-links and repeated links, pages at depths 0..2 under several prefixes; in every state, for every webentity, k in {1,2,3,4,10} and depth limit in {None,0,1,2}, the answer is judged against the number of distinct sources taken from the page links (length, eligibility, order, values, nothing larger omitted). Known finding: unlinked pages are reported with indegree 1.",
+    "DESIGN.md 6/C20")
